@@ -709,7 +709,8 @@ def gen_search_trace(item):
             a = [S, {"alph": qalph, "sym": q}]
         else:
             x = rng.random()
-            tok = (rng.choice(alph) if x < 0.85 else
+            tok = (syms[-1] if (x < 0.3 and n) else syms[0] if (x < 0.4 and n) else    # the boundaries
+                   rng.choice(alph) if x < 0.85 else
                    rng.choice(["Z", "@", "o99"]) if alph is not PROT else "@")
             a = [S, tok]
         progress({"op": op, "a": a, "rep": rep})
@@ -801,6 +802,7 @@ def gen_profile_trace(item):
     events = []
     obj = None
     cur = dict(NOPROFILE)
+    last_obs, again = None, False
     for step in range(item["length"]):
         if obj is None:
             if step > 0 and events[-1]["oc"] == "ok":
@@ -842,7 +844,15 @@ def gen_profile_trace(item):
             op = rng.choice(["getitem"] * 5 + ["consensus"] * 4 + ["prob", "odds", "seqprob", "seqprob", "seqscore",
                             "seqscore", "eq", "eq", "len", "str", "set_symbols", "set_gaps", "poke_symbols",
                             "poke_symbols", "poke_gaps"])
-            if op == "getitem":
+            if again and last_obs is not None:
+                # observe, write, observe again: the same observer call right after an accepted write
+                op = "again"
+                again = False
+            if op == "again":
+                op, a = last_obs
+                if op in ("seqprob", "seqscore") and not _fits(cur["rows"], k, max(a[-1], 0), a[1] if op == "seqscore" else []):
+                    continue
+            elif op == "getitem":
                 ix = _rand_index(rng, n)
                 if n > 3 and ix[0] in ("slice", "mask", "arr") and rng.random() < 0.5:
                     ix = ["slice", [[rng.randint(0, 1)], [], []]]      # keep histories alive
@@ -913,6 +923,12 @@ def gen_profile_trace(item):
         if "detail" in obs:
             ev["detail"] = obs["detail"]
         events.append(ev)
+        if obs["oc"] == "ok" and op in ("consensus", "prob", "odds", "seqprob", "seqscore", "str", "len"):
+            last_obs = (op, a)
+        elif op == "getitem" and obs["oc"] == "ok":
+            last_obs = None           # another object: sequences of the old length do not fit
+        elif obs["oc"] == "ok" and op in ("set_symbols", "set_gaps", "poke_symbols", "poke_gaps"):
+            again = rng.random() < 0.7
         cur = obs["p"]
         if obs["oc"] == "Broken" or not _well_formed(cur):
             break       # the event itself is judged; nothing can be computed from such a state
